@@ -1,10 +1,79 @@
-/- driver for C13 : to be filled in (stub keeps Main.lean compiling) -/
+/- driver for C13 (compiled constraint functions): Float instantiation of Model/Emitted.
+   Numerals are UInt64 bit patterns (`C := UInt64`, `ι := Float.ofBits`). -/
 import MysticVerif.Basic.Proto
+import MysticVerif.Model.Emitted
 
 namespace MysticVerif.DrvC13
-open MysticVerif
+open MysticVerif MysticVerif.Emitted
+
+partial def parseExpr : Val → Option (Expr UInt64)
+  | .list [.sym "n", .flt f] => some (.num f.toBits)
+  | .list [.sym "v", .int j] => if 0 ≤ j then some (.var j.toNat) else none
+  | .list [.sym "+", a, b] => do pure (.add (← parseExpr a) (← parseExpr b))
+  | .list [.sym "-", a, b] => do pure (.sub (← parseExpr a) (← parseExpr b))
+  | .list [.sym "*", a, b] => do pure (.mul (← parseExpr a) (← parseExpr b))
+  | .list [.sym "/", a, b] => do pure (.div (← parseExpr a) (← parseExpr b))
+  | .list [.sym "neg", a] => do pure (.neg (← parseExpr a))
+  | .list [.sym "max", a, b] => do pure (.max (← parseExpr a) (← parseExpr b))
+  | .list [.sym "min", a, b] => do pure (.min (← parseExpr a) (← parseExpr b))
+  | .list [.sym "tol", a] => do pure (.tol (← parseExpr a))
+  | .list [.sym "equal", a, b] => do pure (.equal (← parseExpr a) (← parseExpr b))
+  | .list [.sym "bor", a, b] => do pure (.bor (← parseExpr a) (← parseExpr b))
+  | .list [.sym "false"] => some .false_
+  | .list [.sym "iszero", a] => do pure (.isZero (← parseExpr a))
+  | _ => none
+
+def parseCmp : Val → Option Cmp
+  | .sym "eq" => some .eq
+  | .sym "le" => some .le
+  | .sym "ge" => some .ge
+  | .sym "lt" => some .lt
+  | .sym "gt" => some .gt
+  | .sym "ne" => some .ne
+  | _ => none
+
+def parseRel : Val → Option (Rel UInt64)
+  | .list [.int i, c, e] => do
+      if i < 0 then none else pure ⟨i.toNat, ← parseCmp c, ← parseExpr e⟩
+  | _ => none
+
+def parseAssign : Val → Option (Assign UInt64)
+  | .list [.int i, e] => do
+      if i < 0 then none else pure ⟨i.toNat, ← parseExpr e⟩
+  | _ => none
+
+def mkEnv (tol rel : Float) : Env UInt64 Float := ⟨Float.ofBits, tol, rel⟩
+
+def isPosBits (c : UInt64) : Bool := decide ((0 : Float) < Float.ofBits c)
+
+/-- the bit pattern of 1.0 (any positive numeral will do as the default scale) -/
+def oneBits : UInt64 := (1.0 : Float).toBits
 
 def handle : Handler
+  | .sym "chain" :: args => Id.run do
+    let some tol := (kw? args "tol").bind Val.asFloat? | return "bad-op"
+    let some rel := (kw? args "rel").bind Val.asFloat? | return "bad-op"
+    let some x := (kw? args "x").bind Val.asFloats? | return "bad-op"
+    let some rels := (kw? args "rels").bind Val.asList? |>.bind (·.mapM parseRel) | return "bad-op"
+    let some codes := (kw? args "codes").bind Val.asList? |>.bind (·.mapM parseAssign) | return "bad-op"
+    if rels.length != codes.length then return "bad-op"
+    let env := mkEnv tol rel
+    let recog := List.zipWith (fun r (c : Assign UInt64) => recognise isPosBits oneBits r c.canon) rels codes
+    let rs := "(" ++ " ".intercalate (recog.map pB) ++ ")"
+    -- hypotheses of the theorems that concern the program text: x_i occurs neither in rhs nor in the != factor
+    let free := List.zipWith (fun (r : Rel UInt64) (c : Assign UInt64) =>
+      !(r.rhs.mentions r.i) && !(c.canon.factor.mentions r.i)) rels codes
+    let fs := "(" ++ " ".intercalate (free.map pB) ++ ")"
+    match chain? env codes x with
+    | some y => return s!"ok recog={rs} free={fs} res=value y={pFs y}"
+    | none => return s!"ok recog={rs} free={fs} res=raises"
+  | .sym "eval" :: args => Id.run do      -- plain evaluation of one expression (translator twin test)
+    let some tol := (kw? args "tol").bind Val.asFloat? | return "bad-op"
+    let some rel := (kw? args "rel").bind Val.asFloat? | return "bad-op"
+    let some x := (kw? args "x").bind Val.asFloats? | return "bad-op"
+    let some e := (kw? args "e").bind parseExpr | return "bad-op"
+    let env := mkEnv tol rel
+    if e.defined env x then return s!"ok res=value v={pF (e.eval env x)}" else return "ok res=raises"
   | _ => "bad-op"
 
 end MysticVerif.DrvC13
